@@ -84,3 +84,30 @@ package proxyserver
 //@   props C11
 //@   assigns nothing
 //@   ensures [C11:server-parts] server != nil && fresh(server) && server.HTTPServer != nil && fresh(server.HTTPServer) && server.HTTP2Server != nil && fresh(server.HTTP2Server) && server.TLSConfig == tlsConfig && server.HTTPServer.Handler == handler && server.TLSHandshakeTimeout == 0 && server.HTTP2Server.IdleTimeout == 0
+
+//@ -- C16: the accept loop hands EVERY accepted connection to serveConn (where it is counted exactly once), also
+//@ -- while the server is draining; it returns only on an Accept error
+//@ ghost var acceptedConns int
+//@ func net.Listener.Accept :: ln -> conn, err
+//@   trusted
+//@   assigns acceptedConns
+//@   ensures err == nil ==> conn != nil && acceptedConns == old(acceptedConns) + 1
+//@   ensures err != nil ==> acceptedConns == old(acceptedConns)
+//@ func net.Listener.Close :: ln -> err
+//@   trusted
+//@   assigns nothing
+//@ func net.Listener.Addr :: ln -> a
+//@   trusted
+//@   pure
+//@ func (*Server).setupServe :: server
+//@   trusted
+//@   assigns unrestricted
+//@ func (*Server).shuttingDown :: server -> r
+//@   trusted
+//@   pure
+//@ func (*Server).Serve :: server, ln -> err
+//@   props C16,C10
+//@   requires server != nil && ln != nil
+//@   assigns unrestricted, acceptedConns
+//@   ensures [C16:every-accepted-connection-is-handed-to-serveConn] acceptedConns - old(acceptedConns) == spawned(serveConn) - old(spawned(serveConn))
+//@   loop 1 invariant server != nil && ln != nil && acceptedConns - old(acceptedConns) == spawned(serveConn) - old(spawned(serveConn))
